@@ -78,7 +78,7 @@ def einsum(subscripts, *operands, order=None, swap=None) -> 'Tensor':
     conjs = [1 if '*' in ss else 0 for ss in sin.split(',')]
     sin = sin.replace('*', '')
 
-    if sout == '':
+    if len(tmp) == 1:  # implicit mode; an explicit '->' with nothing behind it asks for a scalar
         for v in sin.replace(',', ''):
             if sin.count(v) == 1:
                 sout += v
